@@ -48,6 +48,7 @@ import PS.Proofs.TtcfgBuildExact
 import PS.Proofs.TtcfgTotal
 import PS.Proofs.TtcfgAtMostTerm
 import PS.Proofs.TtcfgAtMostDiverge
+import PS.Proofs.TtcfgTyped
 namespace PS.T
 open PS PS.G
 
@@ -1015,49 +1016,74 @@ theorem C13_type_request_product {S T U V : Type} [DecidableEq S] [DecidableEq T
   · cases h
   · cases h
 
-/-- … so the product of two size-bounded grammars compiled for `request` reports `request`,
-    and contains exactly the programs common to both -/
-theorem C13_product_total (dsl : Dsl) (request : Ty) (k1 k2 : Nat) (nG : Int) (fuel : Nat)
+/-- **products of constructed grammars, no certificate**: for two grammars built by
+    `__saturation_build__` + `clean()` (any two builders - size, occurrences -, the right one possibly
+    over another DSL) for the same request, `g1 * g2` contains exactly the programs common to both.
+    The hypotheses `ArgsAgree` / `typedOK` / `noUnknownKey` of `C13_product_clean`, which the check
+    used to evaluate per case on the factor tables, are PROVED for constructed grammars
+    (`saturation_typedOK`, `clean_typedOK`, `clean_countHyps`). -/
+theorem C13_product_constructed {S T U V : Type} [DecidableEq S] [DecidableEq T] [DecidableEq U] [DecidableEq V]
+    (B1 : Builder S T) (B2 : Builder U V) (dsl1 dsl2 : Dsl) (request : Ty) (hd : noUnknownDsl dsl1 request = true)
+    (f1 f2 : Nat) (G01 G1 : TT S T) (G02 G2 : TT U V)
+    (s1 : saturationTable B1 dsl1.prims request true f1 = some G01) (c1 : clean G01 f1 = .ok G1)
+    (s2 : saturationTable B2 dsl2.prims request true f2 = some G02) (c2 : clean G02 f2 = .ok G2)
+    (hd2 : noUnknownDsl dsl2 request = true)
+    (fuel : Nat) (G : TT (S × U) (T × V)) (h : cleanFixed (mulRaw G1 G2) fuel = .ok G) (t : Prog) :
+    PS.G.contains G t = (PS.G.contains G1 t && PS.G.contains G2 t) := by
+  obtain ⟨_, u1, a1⟩ := saturation_countHyps B1 dsl1 request true f1 G01 hd s1
+  obtain ⟨_, u2, _⟩ := saturation_countHyps B2 dsl2 request true f2 G02 hd2 s2
+  have t1 := clean_typedOK G01 G1 u1 f1 c1 (saturation_typedOK B1 dsl1.prims request true f1 G01 s1)
+  have t2 := clean_typedOK G02 G2 u2 f2 c2 (saturation_typedOK B2 dsl2.prims request true f2 G02 s2)
+  have k1 := (clean_countHyps G01 G1 u1 a1 f1 c1).2.1
+  have hty : G1.start.1 = G2.start.1 := by
+    rw [clean_start G01 G1 f1 c1, clean_start G02 G2 f2 c2,
+      (saturationTable_spec B1 dsl1.prims request true f1 G01 s1).1,
+      (saturationTable_spec B2 dsl2.prims request true f2 G02 s2).1]
+    rfl
+  exact C13_product_cleanFixed G1 G2 (argsAgree_of_typed G1 G2 t1 t2) hty k1 fuel G h t
+
+/-- … in particular for two size-bounded grammars: the product reports `request` and is the intersection -/
+theorem C13_product_total (dsl : Dsl) (request : Ty) (hd : noUnknownDsl dsl request = true) (k1 k2 : Nat) (nG : Int) (fuel : Nat)
     (g1 g2 : TTG Ctx (Nat × Nat)) (h1 : sizeConstraint dsl request k1 nG true true fuel = .ok g1)
-    (h2 : sizeConstraint dsl request k2 nG true true fuel = .ok g2)
-    (hag : ArgsAgree g1.G g2.G) (hU : noUnknownKey g1.G = true) (fuel' : Nat)
+    (h2 : sizeConstraint dsl request k2 nG true true fuel = .ok g2) (fuel' : Nat)
     (g : TTG (Ctx × Ctx) ((Nat × Nat) × (Nat × Nat))) (h : mulTTG g1 g2 fuel' = .ok g) :
     g.typeRequest = request ∧ ∀ t, PS.G.contains g.G t = (PS.G.contains g1.G t && PS.G.contains g2.G t) := by
   have r1 := C13_type_request_size dsl request k1 nG true true fuel g1 h1
-  have r2 := C13_type_request_size dsl request k2 nG true true fuel g2 h2
-  have hty : g1.G.start.1 = g2.G.start.1 := by
-    have s1 : g1.G.start.1 = request.returns := by
-      unfold sizeConstraint at h1
-      cases h0 : saturationTable (sizeBuilder dsl nG k1 true) dsl.prims request true fuel with
-      | none => simp [h0] at h1
-      | some G0 =>
-        simp only [h0] at h1
-        cases hc : clean G0 fuel with
-        | ok G =>
-          simp only [hc, Res.ok.injEq] at h1; subst h1
-          rw [clean_start G0 G fuel hc, (saturationTable_spec _ dsl.prims request true fuel G0 h0).1]; rfl
-        | fuel => simp [hc] at h1
-        | keyError => simp [hc] at h1
-    have s2 : g2.G.start.1 = request.returns := by
-      unfold sizeConstraint at h2
-      cases h0 : saturationTable (sizeBuilder dsl nG k2 true) dsl.prims request true fuel with
-      | none => simp [h0] at h2
-      | some G0 =>
-        simp only [h0] at h2
-        cases hc : clean G0 fuel with
-        | ok G =>
-          simp only [hc, Res.ok.injEq] at h2; subst h2
-          rw [clean_start G0 G fuel hc, (saturationTable_spec _ dsl.prims request true fuel G0 h0).1]; rfl
-        | fuel => simp [hc] at h2
-        | keyError => simp [hc] at h2
-    rw [s1, s2]
-  unfold mulTTG at h
-  cases hc : cleanFixed (mulRaw g1.G g2.G) fuel' with
-  | ok G =>
-    simp only [hc, Res.ok.injEq] at h
-    subst h
-    exact ⟨r1, fun t => C13_product_cleanFixed g1.G g2.G hag hty hU fuel' G hc t⟩
-  | fuel => simp [hc] at h
-  | keyError => simp [hc] at h
+  unfold sizeConstraint at h1 h2
+  cases s1 : saturationTable (sizeBuilder dsl nG k1 true) dsl.prims request true fuel with
+  | none => simp [s1] at h1
+  | some G01 =>
+    simp only [s1] at h1
+    cases c1 : clean G01 fuel with
+    | ok G1 =>
+      simp only [c1, Res.ok.injEq] at h1
+      cases s2 : saturationTable (sizeBuilder dsl nG k2 true) dsl.prims request true fuel with
+      | none => simp [s2] at h2
+      | some G02 =>
+        simp only [s2] at h2
+        cases c2 : clean G02 fuel with
+        | ok G2 =>
+          simp only [c2, Res.ok.injEq] at h2
+          subst h1; subst h2
+          unfold mulTTG at h
+          cases hc : cleanFixed (mulRaw G1 G2) fuel' with
+          | ok G =>
+            simp only [hc, Res.ok.injEq] at h
+            subst h
+            exact ⟨rfl, fun t => C13_product_constructed _ _ dsl dsl request hd fuel fuel G01 G1 G02 G2 s1 c1 s2 c2 hd fuel' G hc t⟩
+          | fuel => simp [hc] at h
+          | keyError => simp [hc] at h
+        | fuel => simp [c2] at h2
+        | keyError => simp [c2] at h2
+    | fuel => simp [c1] at h1
+    | keyError => simp [c1] at h1
+
+open Ex in
+/-- non-vacuity: size ≤ 3 times size ≤ 1 over {+, 1}: the product object exists, reports `int`, contains `1` only -/
+example : (match sizeConstraint small int 3 2 true true 100, sizeConstraint small int 1 2 true true 100 with
+    | .ok g1, .ok g2 => (match mulTTG g1 g2 100 with
+        | .ok g => g.typeRequest == int && PS.G.contains g.G (leaf one) && !(PS.G.contains g.G (.node plus [leaf one, leaf one]))
+        | _ => false)
+    | _, _ => false) = true := by decide +kernel
 
 end PS.T
